@@ -452,7 +452,7 @@ func (o *ovsdbClient) createRPC2Client(conn net.Conn) {
 	if o.options.inactivityTimeout > 0 {
 		o.trafficSeen = make(chan struct{})
 	}
-	o.rpcClient = rpc2.NewClientWithCodec(jsonrpc.NewJSONCodec(conn))
+	o.rpcClient = rpc2.NewClientWithCodec(newSerialCodec(jsonrpc.NewJSONCodec(conn)))
 	o.rpcClient.SetBlocking(true)
 	o.rpcClient.Handle("echo", func(_ *rpc2.Client, args []interface{}, reply *[]interface{}) error {
 		return o.echo(args, reply)
